@@ -142,12 +142,11 @@ PROPS['C19'] = {
             'non-numeric) parsed by TOTP::from_str or Entry::get_otp, then value_at at 10..13 instants incl. 0, window edges, 2^31, 2^32, u64::MAX; '
             'every case counts as non-trivial; distinct by hash of (uri, times)',
     'partial': ['C19_nopanic_full is false on the unchanged code (digits >= 20 parses, value_at overflows 10^digits: F14); C19_nopanic_partial for digits < 20',
-                'base32 round trip is proved per 5-byte group (decGroup_encGroup, b32Val_b32Char), not yet lifted to whole strings with padding',
                 'conformance of the code value with RFC 6238 is by transcription + the appendix-B vectors (a test), the url crate is modelled on the otpauth grammar only'],
     'assumptions': ['url::Url::parse splits scheme / path / decoded query pairs as the harness composed them (checked: real parse result is compared field by field)'],
     'level_text': 'Kernel-checked for every HMAC function, secret, time and parameter set: code has exactly `digits` decimal digits, 31-bit truncation in bounds, '
                   'validity in [1, period], constant within a time window, parsed URIs never carry period 0, scheme/missing-secret/number/algorithm errors, '
-                  'later duplicate wins by fold. The Lean model with its own SHA-1/256/512+HMAC is run against TOTP::from_str/value_at/get_secret on generated URIs.',
+                  'later duplicate wins by fold; base32 (RFC 4648 with padding) decodes every encoded byte string back to itself (b32_roundtrip, C19_secret_roundtrip). The Lean model with its own SHA-1/256/512+HMAC is run against TOTP::from_str/value_at/get_secret on generated URIs.',
 }
 
 
@@ -586,4 +585,4 @@ for _pid, _ops in (('C01', ['frame-wf', 'surface']), ('C04', ['frame-cred', 'leg
     PROPS[_pid]['judge'] = judge_legacy(_pid)
     PROPS[_pid]['assumptions'] = LEGACY_ASSUME
 PROPS['C01']['partial'] = ['the struct-level XML mapping is validated (Lean reader model vs real reader vs intended database on independently rendered documents with surface variations), not proved']
-PROPS['C04']['partial'] = [p for p in PROPS['C04']['partial'] if not p.startswith('KDBX 3.1 and KDB')] + ['for KDBX 3.1 and KDB the statement "some error, never a database" is validated against the real readers on credential edits; no theorem yet']
+PROPS['C04']['partial'] = [p for p in PROPS['C04']['partial'] if not p.startswith('KDBX 3.1 and KDB')] + ['for KDBX 3.1 and KDB the theorems (C04_kdbx3, C04_kdb) state what a successful open implies: the body decrypts, under the key derived from the offered credentials, to a payload that reproduces the stream-start bytes / the contents hash; that a different key does not is the ciphers\' and SHA-256\'s property, not modelled']
